@@ -146,6 +146,11 @@ impl Generator {
         #[cfg(kaspar030_laze_verif)]
         crate::verif::fault("after_load");
         std::fs::create_dir_all(&self.build_dir)?;
+
+        // from here on the ninja file is being rewritten. the previous cache describes the
+        // previous ninja file, so it must not survive a run that fails or dies half way.
+        GenerateResult::remove_cache(&self.build_dir, &self.mode)?;
+
         let mut ninja_build_file = std::io::BufWriter::new(std::fs::File::create(
             get_ninja_build_file(&self.build_dir, &self.mode).as_path(),
         )?);
@@ -297,6 +302,11 @@ impl Generator {
         }
         #[cfg(kaspar030_laze_verif)]
         crate::verif::fault("after_entries");
+
+        // the cache vouches for the ninja file: make sure it is completely written (and that
+        // write errors are reported) before the cache is.
+        ninja_build_file.flush()?;
+        drop(ninja_build_file);
 
         let num_built = builds.len();
         println!(
@@ -1124,6 +1134,13 @@ impl GenerateResult {
         match mode {
             GenerateMode::Global => build_dir.join("laze-cache-global.bincode"),
             GenerateMode::Local(_) => build_dir.join("laze-cache-local.bincode"),
+        }
+    }
+
+    fn remove_cache(build_dir: &Utf8Path, mode: &GenerateMode) -> std::io::Result<()> {
+        match std::fs::remove_file(Self::cache_file(build_dir, mode)) {
+            Err(e) if e.kind() != std::io::ErrorKind::NotFound => Err(e),
+            _ => Ok(()),
         }
     }
 
